@@ -8,6 +8,7 @@ import (
 	"os/exec"
 	"os/signal"
 	"path/filepath"
+	"runtime"
 	"strconv"
 	"strings"
 	"sync"
@@ -23,6 +24,7 @@ import (
 )
 
 const daemonName = "c20-daemon"
+const childOnlyName = daemonName + "-registered-in-the-re-executed-process-only"
 
 // The test binary plays three roles, exactly like the repository's own test: launcher and daemon are
 // entered through daemon.Run() in init(); the "caller" role (a short-lived process that calls Launch
@@ -31,6 +33,12 @@ func init() {
 	for _, n := range daemonNames {
 		n := n
 		daemon.Register(n, func() { daemonMain(n) })
+	}
+	if _, reexecuted := os.LookupEnv("ENV_DAEMON_NAME"); reexecuted {
+		// a handler that only the re-executed processes know: a program whose daemon side is set up by a code path the
+		// calling side never takes (or whose Launch call comes before the registration). Launch(name) starts the
+		// launcher; it is the launcher and the daemon that look the name up.
+		daemon.Register(childOnlyName, func() { daemonMain(childOnlyName) })
 	}
 	if daemon.Run() {
 		os.Exit(0)
@@ -80,7 +88,24 @@ func daemonMain(self string) {
 	tmp := marker + ".tmp"
 	os.WriteFile(tmp, []byte(fmt.Sprintf("%d %s %s", os.Getpid(), token, self)), 0o644)
 	os.Rename(tmp, marker)
-	daemon.Done()
+	switch os.Getenv("C20_DONE_FROM") {
+	case "1":
+		// readiness is reported from another goroutine (a callback of a server that has started listening)
+		reported := make(chan struct{})
+		go func() { daemon.Done(); close(reported) }()
+		<-reported
+	case "2":
+		// ... from a goroutine that owns an OS thread of its own, which ends with the goroutine
+		reported := make(chan struct{})
+		go func() {
+			runtime.LockOSThread()
+			daemon.Done()
+			close(reported)
+		}()
+		<-reported
+	default:
+		daemon.Done()
+	}
 	if os.Getenv("C20_SHORT_LIVED") != "" {
 		return // a one-shot daemon: its work was done before Done(), it reports and leaves
 	}
@@ -142,9 +167,14 @@ type kase struct {
 	nested           bool // the launched daemon is a supervisor: it launches a worker daemon itself before Done()
 	shortLived       bool // the handler returns right after Done(): Launch still reports the pid it ran under
 	ignoresSigint    bool // the caller child runs with SIGINT ignored (nohup, background job)
+	childOnly        bool // the first launch asks for a handler that is registered in the re-executed processes only
+	doneFrom         int  // 0: Done() is called by the handler's goroutine; 1: by another goroutine; 2: by a goroutine locked to a thread that ends with it
 }
 
 func (k kase) name(i int) string {
+	if k.childOnly && i == 0 {
+		return childOnlyName
+	}
 	if k.distinctNames {
 		return daemonNames[i%len(daemonNames)]
 	}
@@ -177,6 +207,12 @@ func (k kase) String() string {
 	}
 	if k.ignoresSigint {
 		s += " callerIgnoresSIGINT"
+	}
+	if k.childOnly {
+		s += " handlerRegisteredInTheReexecutedProcessOnly"
+	}
+	if k.doneFrom > 0 {
+		s += []string{"", " doneCalledFromAnotherGoroutine", " doneCalledFromAGoroutineWithItsOwnThread"}[k.doneFrom]
 	}
 	return s
 }
@@ -231,6 +267,7 @@ func runCase(k kase) string {
 	if k.shortLived {
 		env["C20_SHORT_LIVED"] = "1"
 	}
+	env["C20_DONE_FROM"] = strconv.Itoa(k.doneFrom)
 	type result struct {
 		pid       int
 		err       string
@@ -521,7 +558,7 @@ func TestGrid(t *testing.T) {
 				if !rt.Thorough() && child && d == 150 && p == 150 {
 					continue // keep the quick tier short; covered by the thorough tier
 				}
-				k := kase{delayMs: d, pauseMs: p, concurrent: 1, childCaller: child, afterFailed: (d+p)%80 == 45, cleansEnv: idx % 4, relativeArgv0: child && idx%4 == 1, shortLived: idx%5 == 2}
+				k := kase{delayMs: d, pauseMs: p, concurrent: 1, childCaller: child, afterFailed: (d+p)%80 == 45, cleansEnv: idx % 4, relativeArgv0: child && idx%4 == 1, shortLived: idx%5 == 2, doneFrom: idx % 3}
 				if msg := runCase(k); msg != "" {
 					if strings.HasPrefix(msg, "harness:") {
 						rt.Inconclusivef(t, "%s: %s", k, msg)
@@ -573,6 +610,8 @@ func TestGenerated(t *testing.T) {
 		k.nested = (k.cleansEnv == 0 || k.cleansEnv == 3) && rapid.IntRange(0, 3).Draw(t, "daemonLaunchesAWorker") == 0
 		k.shortLived = !k.nested && rapid.IntRange(0, 3).Draw(t, "handlerReturnsAfterDone") == 0
 		k.ignoresSigint = k.childCaller && rapid.IntRange(0, 2).Draw(t, "callerIgnoresSIGINT") == 0
+		k.doneFrom = rapid.SampledFrom([]int{0, 0, 1, 2}).Draw(t, "doneCalledFrom")
+		k.childOnly = !k.afterFailed && rapid.IntRange(0, 4).Draw(t, "handlerKnownToTheReexecutedProcessOnly") == 0
 		msg := runCase(k)
 		if strings.HasPrefix(msg, "harness:") {
 			ev.Inconclusive(1)
@@ -601,6 +640,12 @@ func TestGenerated(t *testing.T) {
 		}
 		if k.shortLived {
 			ev.Label("handler_returns_right_after_Done")
+		}
+		if k.doneFrom > 0 {
+			ev.Label("done_called_from_another_goroutine")
+		}
+		if k.childOnly {
+			ev.Label("handler_registered_in_the_re-executed_process_only")
 		}
 		if k.ignoresSigint {
 			ev.Label("caller_runs_with_SIGINT_ignored")
